@@ -15,7 +15,7 @@ use crate::{
 };
 
 //@ harness: c01_view_trim
-//@ property: C01, C16
+//@ property: C01
 //@ tier: quick
 //@ unwind: 12
 //@ functions: ReceivedPdu::trim_front; ReceivedPdu::len; ReceivedPdu::deref
